@@ -161,7 +161,7 @@ def closeTok (a : List FsOp) : String :=
 
 /-- logical state after `Open` found `r` -/
 def stateOfRecover (cfg : Cfg) (r : RState) (old : PState) : PState :=
-  { cfg := cfg, nextTs := r.nextTxnTs, cur := r.nextMemFid, curOpen := true, nextMem := r.nextMemFid + 1,
+  { cfg := cfg, nextTs := r.nextTxnTs, cur := r.nextMemFid, curOpen := true, curHdr := true, nextMem := r.nextMemFid + 1,
     imm := r.imms.map (·.1),
     mtxns := r.imms.map (fun (fid, es) => (fid, [{ ts := 0, ents := es }])),
     nextSst := r.nextSstId,
